@@ -368,6 +368,9 @@ def invalid_mask(mask, ny, nx):
     elif kind == 'circle':
         X, Y = np.meshgrid(np.linspace(-1, 1, nx), np.linspace(-1, 1, ny))
         inv = np.hypot(X, Y) > 1.0 + 1e-9
+    elif kind == 'band':           # only the three central columns survive (too few for cubic terms)
+        inv[:, :] = True
+        inv[:, nx // 2 - 1:nx // 2 + 2] = False
     elif kind == 'ragged':
         for i in range(ny):
             cut = (i * 2) % 3          # 0, 2, 1, 0, 2, ... samples missing at the right edge
@@ -475,7 +478,7 @@ def plan(tier, seed):
         masks += [{'kind': 'sample', 'i': i, 'j': j} for i in range(ny) for j in range(nx)]
         masks += [{'kind': 'row', 'i': i} for i in range(ny)]
         masks += [{'kind': 'col', 'j': j} for j in range(nx)]
-        masks += [{'kind': 'circle'}, {'kind': 'ragged'}]
+        masks += [{'kind': 'circle'}, {'kind': 'ragged'}, {'kind': 'band'}]
         for b in ('legendre', 'xy', 'zernike'):
             for mk in masks:
                 for fl in (fills if mk['kind'] != 'none' else ['nan']):
@@ -502,7 +505,7 @@ def plan(tier, seed):
                   'm=0 part None / [] / 3 terms x coordinate forms; every unit vector over the concatenated (a,b) + one seeded dense', reset=reset_all),
         ScopeUnit('lstsq', ls_cases, run_lstsq,
                   f'bases Legendre(x)Legendre(y) 6 terms, XY monomials 6 terms, Zernike Noll 1..10 on grids {grids}; invalid-sample masks: none, EVERY single sample, '
-                  'every single row, every single column, circular aperture, ragged edge; invalid samples filled with NaN / +inf / -inf / a mixture; coefficient unit vectors + one '
+                  'every single row, every single column, circular aperture, ragged edge, three-column band; invalid samples filled with NaN / +inf / -inf / a mixture; coefficient unit vectors + one '
                   'seeded dense; data = B c and B c + r (r orthogonal to the basis on exactly the valid samples, so any other sample selection changes the answer); '
                   'modes as array and as list; masks leaving the basis rank-deficient on the valid samples (numpy matrix_rank) are counted under outcome '
                   '"rank-deficient-skipped" and not judged', reset=reset_all),
